@@ -350,15 +350,17 @@ class Weaver:
         if start is None:
             start_idx = 0
         else:
-            start_idx = np.where(self.x == start)[0][0]
+            start_found = np.where(self.x == start)[0]
+            if len(start_found) == 0:
+                raise ValueError("Start value not found in x")
+            start_idx = start_found[0]
         if stop is None:
             stop_idx = len(self.x)
         else:
-            stop_idx = np.where(self.x == stop)[0][0] + 1
-        if not start_idx:
-            raise ValueError("Start value not found in x")
-        if not stop_idx:
-            raise ValueError("Stop value not found in x")
+            stop_found = np.where(self.x == stop)[0]
+            if len(stop_found) == 0:
+                raise ValueError("Stop value not found in x")
+            stop_idx = stop_found[0] + 1
         return self.slice_by_index(start_idx, stop_idx, step)
 
     def interpolate(self, n: int = None, new_x=None, method='linear', **kwargs):
